@@ -10,6 +10,7 @@ Lemma table_is_ok : table_ok access_table = true. Proof. reflexivity. Qed.
 Lemma ids_are_atomic : nextid_atomic = true. Proof. reflexivity. Qed.
 Lemma closes_are_guarded : forallb (fun s => snd s) close_sites = true. Proof. reflexivity. Qed.
 Lemma send_waits : broker_send_waits_reply = true. Proof. reflexivity. Qed.
+Lemma pending_closes_are_guarded : forallb (fun s => snd s) pending_close_sites = true. Proof. reflexivity. Qed.
 
 (* (1) NextId never returns the same id twice: any number of calls up to 2^32 (the counter is a uint32 and wraps), from
    any goroutines, in any order *)
@@ -27,6 +28,22 @@ Proof.
   intros site Hin closers. apply close_calls_once.
   pose proof closes_are_guarded as H. rewrite forallb_forall in H. exact (H site Hin).
 Qed.
+
+(* (2a) the done channel of a pending broker entry.  Its closer is whoever takes the parked connection, and that need not be
+   one goroutine only: an id used again while the entry of its previous use awaits removal parks the new connection in the
+   same entry.  Every function that closes such a channel (the list is read from the source) does it under the entry's
+   once, so: any number of takers, in any order, close it exactly once and none of them panics *)
+Theorem C20_pending_entry_closed_once : forall site, In site pending_close_sites -> forall (takers : list nat),
+  let s := cl_run (List.concat (map (close_events (snd site)) takers)) in
+  c_panics s = 0%nat /\ c_closes s = (match takers with [] => 0%nat | _ => 1%nat end).
+Proof.
+  intros site Hin takers. apply close_calls_once.
+  pose proof pending_closes_are_guarded as H. rewrite forallb_forall in H. exact (H site Hin).
+Qed.
+
+(* the pinned tree closed it bare in MuxBroker.Accept and GRPCBroker.Dial; even a check before the close would not do:
+   C20_refuted_unguarded_close below *)
+
 
 (* (2b) the broker streams' reply channels: the stream goroutine never sends on a channel its requester has closed, for
    every schedule of take / reply / give-up attempts *)
